@@ -79,7 +79,7 @@ def plain(tree):
 
 def build(tree, placement=None, ntables=1, table_order="fwd", free_at=None, seqs=(7, 6), stale=None, table_seq=5,
           second_object_table=False, fileobj_threshold=0x800, version=0x400, slack=4, stale_tree=None,
-          stale_positions=None):
+          stale_positions=None, fileobj_base=0x40000, fileobj_gap=0, as_image=False):
     """placement: list (per preorder entry) of table index 1..ntables (default round-robin).
     table_order: 'fwd' | 'rev' order of the entries inside each table (rev puts children before parents).
     free_at: set of global positions before which a Free entry is inserted.
@@ -91,7 +91,7 @@ def build(tree, placement=None, ntables=1, table_order="fwd", free_at=None, seqs
     for e, tb in zip(ents, placement):
         e["table"] = tb
     fileobjs = []
-    next_fo = [0x40000]
+    next_fo = [fileobj_base]
 
     def raw_of(e, values):
         t = e["type"]
@@ -102,7 +102,7 @@ def build(tree, placement=None, ntables=1, table_order="fwd", free_at=None, seqs
             data = raw[4:]
             off = next_fo[0]
             asz = (len(data) + 0xFFF) & ~0xFFF
-            next_fo[0] += asz
+            next_fo[0] += asz + fileobj_gap
             fileobjs.append((off, asz, data))
             raw = struct.pack("<IQ", len(data), off)
             flags = 1
@@ -192,10 +192,14 @@ def build(tree, placement=None, ntables=1, table_order="fwd", free_at=None, seqs
     for off, size, body in placed_tabs:
         img[off:off + len(body)] = body
         oe.append((2, off, size, 1))
+    high = []
     for off, asz, data in fileobjs:
-        if len(img) < off + asz:
-            img.extend(b"\0" * (off + asz - len(img)))
-        img[off:off + len(data)] = data
+        if as_image:
+            high.append((off, asz, data))
+        else:
+            if len(img) < off + asz:
+                img.extend(b"\0" * (off + asz - len(img)))
+            img[off:off + len(data)] = data
         oe.append((3, off, asz, 1))
     if second_object_table:
         half = len(oe) // 2
@@ -206,6 +210,17 @@ def build(tree, placement=None, ntables=1, table_order="fwd", free_at=None, seqs
     else:
         ot = objtable(oe)
     img[0x2000:0x2000 + len(ot)] = ot
+    if as_image:
+        from mc import pattern
+        from mc.vfile import Image
+
+        out = Image("hyperv")
+        out.put(0, bytes(img))
+        for off, asz, data in high:
+            out.put(off, data, meta=False)
+            if asz > len(data):
+                out.put_pattern(off + len(data), asz - len(data), pattern.SLACK, off)
+        return out
     return bytes(img)
 
 
